@@ -68,7 +68,15 @@ Step ==
        [] t.ev = "found" -> LET got == {t.ids[j] : j \in 1..Len(t.ids)} IN
                             /\ viol' = viol \cup (IF t.err # "" THEN {<<l, "SearchUnavailable">>}
                                                    ELSE (IF (wlive \ wmaybe) \subseteq got THEN {} ELSE {<<l, "AckedLostOnRestart">>})
-                                                        \cup (IF got \subseteq wlive \cup wmaybe THEN {} ELSE {<<l, "GhostAfterRestart">>}))
+                                                        \cup (IF got \subseteq wlive \cup wmaybe THEN {} ELSE {<<l, "GhostAfterRestart">>})
+                                                        \* a search for the 5 nearest returns the 5 nearest of everything the full search
+                                                        \* through the same node returned a moment before (C09; distance grows with the id)
+                                                        \cup (IF t.toperr # "" \/ t.top = SubSeq(t.ids, 1, IF Len(t.ids) < 5 THEN Len(t.ids) ELSE 5) THEN {} ELSE {<<l, "TopKNotUnion">>})
+                                                        \* the reported item count is the sum over the partitions (C17): with nothing
+                                                        \* uncertain it is the number of live items, otherwise within the uncertainty
+                                                        \cup (IF t.sizeerr # "" THEN {}
+                                                              ELSE IF t.size >= Cardinality(wlive \ wmaybe) /\ t.size <= Cardinality(wlive \cup wmaybe)
+                                                                   THEN {} ELSE {<<l, "SizeNotSum">>}))
                             /\ UNCHANGED <<cat, mem, maybe, ref, order, wlive, wmaybe>>
        [] t.ev = "died" -> viol' = viol \cup {<<l, "NodeDied">>} /\ UNCHANGED <<cat, mem, maybe, ref, order, wlive, wmaybe>>
        [] t.ev = "view" -> /\ viol' = viol \cup ViewViol(t)
